@@ -529,8 +529,19 @@ type Word struct {
 	Parts []WordPart
 }
 
-func (w *Word) Pos() Pos { return w.Parts[0].Pos() }
-func (w *Word) End() Pos { return w.Parts[len(w.Parts)-1].End() }
+func (w *Word) Pos() Pos {
+	if len(w.Parts) == 0 {
+		return Pos{} // an empty brace expansion element, such as in {,foo}
+	}
+	return w.Parts[0].Pos()
+}
+
+func (w *Word) End() Pos {
+	if len(w.Parts) == 0 {
+		return Pos{} // an empty brace expansion element, such as in {foo,}
+	}
+	return w.Parts[len(w.Parts)-1].End()
+}
 
 // Lit returns the word as a string when it is a simple literal,
 // made up of [*Lit] word parts only.
